@@ -91,13 +91,49 @@ Section NodeFrame.
       eapply frame_trans; [exact (assign_frame _ _ _ _ Ha)|exact (IH (Forall_inv_tail HQ) _ _ _ _ Hr)].
   Qed.
 
-  Lemma conv_kind_frame k nm items props req ap s0 te s1 :
-    Forall Q items -> Forall (fun kv => Q (snd kv)) props -> OForall Q ap ->
-    conv_kind cls rid cv k nm items props req ap s0 = Some (te, s1) -> frame s0 s1.
+  Lemma conv_xvar_frame nm v sc s0 vd dn s1 :
+    Q sc -> conv_xvar cv nm v sc s0 = Some (vd, dn, s1) -> frame s0 s1.
   Proof.
-    intros HQi HQp HQa.
-    destruct k as [| | | |mx mn pat|r|raws|deny| | |c|c|r|]; cbn [conv_kind];
+    intro HQ. unfold conv_xvar. destruct (cv sc _ s0) as [[te sa]|] eqn:Hc; [|discriminate].
+    pose proof (Hcv _ HQ _ _ _ _ Hc) as F1.
+    destruct te; try (intro H; injection H as _ _ <-; exact F1);
+      destruct (assign _ sa) as [t9 sb] eqn:Ha; intro H; injection H as _ _ <-;
+      (eapply frame_trans; [exact F1|exact (assign_frame _ _ _ _ Ha)]).
+  Qed.
+
+  Lemma conv_xbranches_frame nm : forall bs, Forall (PropP Q) bs -> forall s0 rvs dn s1,
+    conv_xbranches cv nm bs s0 = Some (rvs, dn, s1) -> frame s0 s1.
+  Proof.
+    induction bs as [|b r IH]; intros HQ s0 rvs dn s1 H; cbn [conv_xbranches] in H.
+    - injection H as _ _ <-. apply frame_refl.
+    - destruct b as [bb|bty bfmt benum bcst bnv bsv bik bitems bai bmni bmxi buq bprops breq bap bmnp bmxp ballo banyo boneo bno bref bdflt btitle];
+        [discriminate|].
+      assert (Hrest : forall vs1 d1 sa, frame s0 sa ->
+                match conv_xbranches cv nm r sa with
+                | Some (vs2, d2, s2) => Some (vs1 ++ vs2, d1 || d2, s2)
+                | None => None
+                end = Some (rvs, dn, s1) -> frame s0 s1).
+      { intros vs1 d1 sa F Hx. destruct (conv_xbranches cv nm r sa) as [[[vs2 d2] s2]|] eqn:Hr; [|discriminate].
+        injection Hx as _ _ <-. eapply frame_trans; [exact F|exact (IH (Forall_inv_tail HQ) _ _ _ _ Hr)]. }
+      destruct bprops as [|[v sc] [|]].
+      + destruct (xsimple _); [|discriminate]. exact (Hrest _ _ _ (frame_refl s0) H).
+      + destruct (conv_xvar cv nm v sc s0) as [[[vd deny] sa]|] eqn:Hv; [|discriminate].
+        refine (Hrest _ _ _ _ H). exact (conv_xvar_frame _ _ _ _ _ _ _ (Forall_inv HQ v sc eq_refl) Hv).
+      + destruct (xsimple _); [|discriminate]. exact (Hrest _ _ _ (frame_refl s0) H).
+  Qed.
+
+  Lemma conv_kind_frame k nm items props req ap oneo s0 te s1 :
+    Forall Q items -> Forall (fun kv => Q (snd kv)) props -> OForall Q ap -> OForall (Forall (PropP Q)) oneo ->
+    conv_kind cls rid cv k nm items props req ap oneo s0 = Some (te, s1) -> frame s0 s1.
+  Proof.
+    intros HQi HQp HQa HQo.
+    destruct k as [| | | |mx mn pat|r|raws|deny| | |c|c|r| |tg]; cbn [conv_kind];
       try (intro H; injection H as _ <-; apply frame_refl).
+    10: { destruct tg; try discriminate. destruct (type_name cls nm); [|discriminate].
+          destruct oneo as [bs|]; [|discriminate].
+          destruct (conv_xbranches cv nm bs s0) as [[[rvs deny] sa]|] eqn:Hb; [|discriminate].
+          destruct (mk_tagged cls u TagExternal rvs deny); [|discriminate]. intro H. injection H as _ <-.
+          exact (conv_xbranches_frame _ _ HQo _ _ _ _ Hb). }
     - destruct (assign DString _) as [sid sa] eqn:Ha. destruct (type_name cls nm); [|discriminate].
       intro H. injection H as _ <-. pose proof (assign_frame _ _ _ _ Ha) as F.
       destruct pat; [eapply frame_trans; [apply frame_set_regress|exact F]|exact F].
@@ -126,15 +162,15 @@ Section NodeFrame.
     - intro H. injection H as _ <-. apply frame_set_json.
   Qed.
 
-  Lemma conv_node_frame c nm items props req ap s0 te s1 :
-    Forall Q items -> Forall (fun kv => Q (snd kv)) props -> OForall Q ap ->
-    conv_node cls rid cv c nm items props req ap s0 = Some (te, s1) -> frame s0 s1.
+  Lemma conv_node_frame c nm items props req ap oneo s0 te s1 :
+    Forall Q items -> Forall (fun kv => Q (snd kv)) props -> OForall Q ap -> OForall (Forall (PropP Q)) oneo ->
+    conv_node cls rid cv c nm items props req ap oneo s0 = Some (te, s1) -> frame s0 s1.
   Proof.
-    intros HQi HQp HQa.
+    intros HQi HQp HQa HQo.
     destruct c as [[[|] k]|]; cbn [conv_node]; [| |discriminate].
-    - destruct (conv_kind cls rid cv k (inner_name nm) items props req ap s0) as [[te' sa]|] eqn:Hk; [|discriminate].
+    - destruct (conv_kind cls rid cv k (inner_name nm) items props req ap oneo s0) as [[te' sa]|] eqn:Hk; [|discriminate].
       destruct (assign te' sa) as [i sb] eqn:Ha. intro H. injection H as _ <-.
-      eapply frame_trans; [exact (conv_kind_frame _ _ _ _ _ _ _ _ _ HQi HQp HQa Hk)|exact (assign_frame _ _ _ _ Ha)].
+      eapply frame_trans; [exact (conv_kind_frame _ _ _ _ _ _ _ _ _ _ HQi HQp HQa HQo Hk)|exact (assign_frame _ _ _ _ Ha)].
     - apply conv_kind_frame; assumption.
   Qed.
 End NodeFrame.
@@ -202,7 +238,7 @@ Section SettingsProofs.
     conv_s cls S rid s nm s0 =
     conv_node cls rid (conv_s cls S rid)
       (classify ty fmt enum cst nv sv ik items ai mni mxi uq props req ap mnp mxp allo anyo oneo no ref dflt title)
-      nm items props req ap s0.
+      nm items props req ap oneo s0.
   Proof.
     intros s H. unfold hit in H. subst s. cbn [conv_s].
     destruct (cache_lookup S _); [discriminate|].
@@ -211,10 +247,10 @@ Section SettingsProofs.
 
   Lemma conv_s_frame rid : forall s nm s0 te s1, conv_s cls S rid s nm s0 = Some (te, s1) -> frame s0 s1.
   Proof.
-    apply (schema_ind' (fun s => forall nm s0 te s1, conv_s cls S rid s nm s0 = Some (te, s1) -> frame s0 s1)).
+    apply (schema_ind_p (fun s => forall nm s0 te s1, conv_s cls S rid s nm s0 = Some (te, s1) -> frame s0 s1)).
     - intros [|] nm s0 te s1 H; cbn [conv_s] in H; [|discriminate]. injection H as _ <-. apply frame_set_json.
     - intros ty fmt enum cst nv sv ik items ai mni mxi uq props req ap mnp mxp allo anyo oneo no ref dflt title
-             IHi _ IHp IHa _ _ _ _ nm s0 te s1 H.
+             IHi IHp IHa IHo nm s0 te s1 H.
       cbn [conv_s] in H. destruct (cache_lookup S _) as [d|]; [injection H as _ <-; apply frame_refl|].
       destruct (match null_inner _ with Some ss => cache_lookup S ss | None => None end) as [d|].
       + destruct (assign d s0) as [i sa] eqn:Ha. injection H as _ <-. exact (assign_frame _ _ _ _ Ha).
@@ -460,23 +496,40 @@ Section NodeExt.
     destruct (assign te sa) as [t sb]. rewrite (IH (Forall_inv_tail HQ)). reflexivity.
   Qed.
 
-  Lemma conv_kind_ext k nm items props req ap s0 :
-    Forall Q items -> Forall (fun kv => Q (snd kv)) props -> OForall Q ap ->
-    conv_kind cls rid cv1 k nm items props req ap s0 = conv_kind cls rid cv2 k nm items props req ap s0.
+  Lemma conv_xbranches_ext nm : forall bs, Forall (PropP Q) bs -> forall s0,
+    conv_xbranches cv1 nm bs s0 = conv_xbranches cv2 nm bs s0.
   Proof.
-    intros HQi HQp HQa. destruct k; cbn [conv_kind]; try reflexivity.
+    induction bs as [|b r IH]; intros HQ s0; cbn [conv_xbranches]; [reflexivity|].
+    destruct b as [bb|bty bfmt benum bcst bnv bsv bik bitems bai bmni bmxi buq bprops breq bap bmnp bmxp ballo banyo boneo bno bref bdflt btitle];
+      [reflexivity|].
+    destruct bprops as [|[v sc] [|]].
+    - destruct (xsimple _); [|reflexivity]. rewrite (IH (Forall_inv_tail HQ)). reflexivity.
+    - unfold conv_xvar. rewrite (Hcv _ (Forall_inv HQ v sc eq_refl)).
+      match goal with |- match match ?x with _ => _ end with _ => _ end = _ => destruct x as [[[vd deny] sa]|] end;
+        [|reflexivity].
+      rewrite (IH (Forall_inv_tail HQ)). reflexivity.
+    - destruct (xsimple _); [|reflexivity]. rewrite (IH (Forall_inv_tail HQ)). reflexivity.
+  Qed.
+
+  Lemma conv_kind_ext k nm items props req ap oneo s0 :
+    Forall Q items -> Forall (fun kv => Q (snd kv)) props -> OForall Q ap -> OForall (Forall (PropP Q)) oneo ->
+    conv_kind cls rid cv1 k nm items props req ap oneo s0 = conv_kind cls rid cv2 k nm items props req ap oneo s0.
+  Proof.
+    intros HQi HQp HQa HQo. destruct k; cbn [conv_kind]; try reflexivity.
+    5: { destruct tg; try reflexivity. destruct (type_name cls nm); [|reflexivity].
+         destruct oneo as [bs|]; [|reflexivity]. rewrite (conv_xbranches_ext _ _ HQo). reflexivity. }
     - destruct (type_name cls nm); [|reflexivity]. rewrite (conv_props_ext _ _ _ HQp). reflexivity.
     - destruct (assign DString s0). destruct ap as [vs|]; [|reflexivity]. rewrite (Hcv _ HQa). reflexivity.
     - rewrite (conv_items_ext _ _ HQi). reflexivity.
     - destruct items as [|it [|? ?]]; try reflexivity. rewrite (Hcv _ (Forall_inv HQi)). reflexivity.
   Qed.
 
-  Lemma conv_node_ext c nm items props req ap s0 :
-    Forall Q items -> Forall (fun kv => Q (snd kv)) props -> OForall Q ap ->
-    conv_node cls rid cv1 c nm items props req ap s0 = conv_node cls rid cv2 c nm items props req ap s0.
+  Lemma conv_node_ext c nm items props req ap oneo s0 :
+    Forall Q items -> Forall (fun kv => Q (snd kv)) props -> OForall Q ap -> OForall (Forall (PropP Q)) oneo ->
+    conv_node cls rid cv1 c nm items props req ap oneo s0 = conv_node cls rid cv2 c nm items props req ap oneo s0.
   Proof.
-    intros HQi HQp HQa. destruct c as [[[|] k]|]; cbn [conv_node]; [| |reflexivity];
-      rewrite (conv_kind_ext _ _ _ _ _ _ _ HQi HQp HQa); reflexivity.
+    intros HQi HQp HQa HQo. destruct c as [[[|] k]|]; cbn [conv_node]; [| |reflexivity];
+      rewrite (conv_kind_ext _ _ _ _ _ _ _ _ HQi HQp HQa HQo); reflexivity.
   Qed.
 End NodeExt.
 
@@ -486,10 +539,10 @@ Proof. destruct s; reflexivity. Qed.
 (* [C14F] with no settings the model is the verified converter of Algo/Convert.v, at every schema *)
 Theorem conv_s_no_settings cls rid : forall s nm s0, conv_s cls no_settings rid s nm s0 = conv cls rid s nm s0.
 Proof.
-  apply (schema_ind' (fun s => forall nm s0, conv_s cls no_settings rid s nm s0 = conv cls rid s nm s0)).
+  apply (schema_ind_p (fun s => forall nm s0, conv_s cls no_settings rid s nm s0 = conv cls rid s nm s0)).
   - intros [|] nm s0; reflexivity.
   - intros ty fmt enum cst nv sv ik items ai mni mxi uq props req ap mnp mxp allo anyo oneo no ref dflt title
-           IHi _ IHp IHa _ _ _ _ nm s0.
+           IHi IHp IHa IHo nm s0.
     cbn [conv_s conv]. rewrite cache_lookup_none.
     assert (E : match null_inner (SObj ty fmt enum cst nv sv ik items ai mni mxi uq props req ap mnp mxp allo anyo oneo no ref dflt title)
                 with Some ss => cache_lookup no_settings ss | None => None end = None).
